@@ -82,11 +82,19 @@ func (w *walker) expr(e ast.Expr, st *state, k func(*state, Value)) {
 		case *types.Var:
 			st = st.clone()
 			w.access(st, o, false, nil, e)
-			if v, ok := st.env.lookup(o); ok && v.Kind != VAlias {
+			if v, ok := st.env.lookup(o); ok && v.Kind != VAlias && v.Kind != VUnknown {
 				k(st, v)
-			} else {
-				k(st, Value{})
+				return
 			}
+			// a boolean whose value was decided by a branch on this path (and not assigned since)
+			if b, isB := o.Type().Underlying().(*types.Basic); isB && b.Info()&types.IsBoolean != 0 {
+				ki, neg := w.atomKey(e, fr, st)
+				if pv, known := st.facts.lookup(ki); known {
+					k(st, Value{Kind: VBool, Bool: pv != neg})
+					return
+				}
+			}
+			k(st, Value{})
 		case *types.Func:
 			k(st, Value{Kind: VFunc, Fn: o.Origin()})
 		default:
